@@ -98,6 +98,9 @@ int main(int argc, char** argv) {
   BoxOpts ol = large_layer(th, o.cf); ol.inplace = true;
   std::vector<ApiGroup> lgroups = api_groups(ol);
   ctx.parallel(lgroups.size(), [&](uint64_t gi) { run_group(lgroups[gi], ol, runs); }, "entry points, large ring dimensions");
+  BoxOpts ow = wide_layer(o.cf); ow.inplace = true;
+  std::vector<ApiGroup> wgroups = api_groups(ow);
+  ctx.parallel(wgroups.size(), [&](uint64_t gi) { run_group(wgroups[gi], ow, runs); }, "entry points, wide shapes");
   std::vector<KernelGroup> kg = kernel_groups(th);
   ctx.parallel(kg.size(), [&](uint64_t gi) { run_kernel_group(kg[gi], th, [&](ApiCase& c, const KernelInfo&) { runs(c); }); }, "kernels");
 
